@@ -1,1 +1,8 @@
-// stub of Panda3D dconfig.h for compiling generated code offline
+#ifndef SHIM_DCONFIG_H
+#define SHIM_DCONFIG_H
+#include "dtoolbase.h"
+#define Configure(name) struct StaticInitializer_##name { StaticInitializer_##name(); }; static StaticInitializer_##name name
+#define ConfigureDef(name) Configure(name)
+#define ConfigureDecl(name, a, b)
+#define ConfigureFn(name) StaticInitializer_##name::StaticInitializer_##name()
+#endif
